@@ -1,0 +1,41 @@
+//go:build verif
+
+package store
+
+import (
+	"os"
+	"strconv"
+	"strings"
+	"sync"
+	"syscall"
+)
+
+// verifSite marks a point inside a store transaction.  When the environment
+// variable VERIF_CRASH_AT is set to "<site>#<k>" the process kills itself
+// (SIGKILL) at the k-th visit of that site: deterministic crash points for
+// verification runs.
+var verifSiteMu sync.Mutex
+var verifSiteCount = map[string]int{}
+
+func verifSite(name string) {
+	spec := os.Getenv("VERIF_CRASH_AT")
+	if spec == "" {
+		return
+	}
+	parts := strings.Split(spec, "#")
+	if len(parts) != 2 || parts[0] != name {
+		return
+	}
+	k, err := strconv.Atoi(parts[1])
+	if err != nil {
+		return
+	}
+	verifSiteMu.Lock()
+	verifSiteCount[name]++
+	n := verifSiteCount[name]
+	verifSiteMu.Unlock()
+	if n == k {
+		_ = syscall.Kill(os.Getpid(), syscall.SIGKILL)
+		select {}
+	}
+}
